@@ -12,7 +12,8 @@ q = queue.Queue()
 for a in args:
     sid, _, checks = a.partition(":")
     prop, m = sid.split("-")
-    q.put((f"/tmp/mut/{prop}/_out/{m}", (checks.split(",") if checks else [prop])))
+    d = f"/verif/seeded/{sid}" if os.path.exists(f"/verif/seeded/{sid}/patch.diff") else f"/tmp/mut/{prop}/_out/{m}"
+    q.put((d, (checks.split(",") if checks else [prop])))
 lock = threading.Lock()
 def worker():
     while True:
